@@ -236,6 +236,9 @@ def run(ctx, impl_only=False):
                 ys[ctx.rng.randrange(len(ys))] = copy.deepcopy(ctx.rng.choice([l for l in leaves if not isinstance(l, frozenset)]))
         w = ctx.rng.choice([lambda v: v, lambda v: tuple(v), lambda v: {'k': v, 'z': 1}, lambda v: [0, v]])
         pairs.append((w(xs), w(ys)))
+    # a text and its UTF-8 bytes are two members of a set: two changes in every presentation
+    pairs += [({'alpha'}, {'alpha', 'caf\u00e9', 'caf\u00e9'.encode(), 7}), ({'x', b'x', 1}, {1}), ({'k': frozenset({'a', b'a'})}, {'k': frozenset({'b', b'b'})}), ([{b'q', 'q', 'r'}, 0], [{'r'}, 0]),
+              ({'s': {'n', b'n'}}, {'s': {'n'}})]
     pairs += [({'a': {1, 2}, 'b': {1, 2}}, {'a': {1, 2, 3}, 'b': {1, 2, 3}}), ({'a': {1, 2, 3}, 'b': {2, 3}}, {'a': {1, 2}, 'b': {2}}),
               ([{'x', 'y'}, {'x'}], [{'x', 'y', 'z'}, {'x', 'z'}]), ({'p': frozenset({1}), 'q': frozenset({1, 5})}, {'p': frozenset({1, 7}), 'q': frozenset({1, 5, 7})})]
     # one object referenced from several places of t1 (a set, a list, a dictionary): each place is changed differently in t2
@@ -334,9 +337,18 @@ def run(ctx, impl_only=False):
                     ctx.violate(case, 'pretty() raised %s' % type(e).__name__)
                 # asking for the other presentations does not change the tree view, and the tree behind a text-view object is the same tree
                 try:
-                    tree.to_json(); tree.pretty()
-                except Exception:
-                    pass
+                    jt_, pt_ = tree.to_json(), tree.pretty(prefix=SENT)
+                    if jsonable(t1) and jsonable(t2):
+                        # the JSON and the statements of a tree-view object are those of the text view
+                        want_ = {c: sorted(map(str, (b if not isinstance(b, dict) else b.keys()))) for c, b in text.items() if c != 'deep_distance'}
+                        got_ = {c: sorted(map(str, (b if not isinstance(b, dict) else b.keys()))) for c, b in json.loads(jt_).items() if c != 'deep_distance'}
+                        if want_ != got_:
+                            ctx.violate(case, 'to_json of the tree-view object differs from the text view: %r vs %r' % (got_, want_))
+                        if pt_.count(SENT) != text.pretty(prefix=SENT).count(SENT):
+                            ctx.violate(case, 'pretty() of the tree-view object has %d statements, of the text-view object %d' % (pt_.count(SENT), text.pretty(prefix=SENT).count(SENT)))
+                except Exception as e:
+                    if jsonable(t1) and jsonable(t2):
+                        ctx.violate(case, 'to_json / pretty of the tree-view object raised %s: %s' % (type(e).__name__, str(e)[:80]))
                 after = tree_snapshot(tree)
                 if after != before:
                     ctx.violate(case, 'the tree view changed when the text / JSON / pretty presentations were produced: %r -> %r' % (
